@@ -311,6 +311,21 @@ Definition scan_escape (s : stream) : res (stream * list str) :=
       end
   end.
 
+(* the if / elif chain of _scan_flow_scalar_non_spaces after the run of ordinary characters:
+   Some (stream, chunks) = something was scanned, go round the `while True:` again; None = return *)
+Definition flow_ns_branch (s1 : stream) (double : bool) : res (option (stream * list str)) :=
+  do ch <- peek s1 0;
+  do q2 <- (if negb double && (ch =? c_squote)
+            then do n <- peek s1 1; Ok (n =? c_squote) else Ok false);
+  if q2 then
+    do s2 <- forward s1 2; Ok (Some (s2, [[c_squote]]))
+  else if (double && (ch =? c_squote))
+          || (negb double && mem_N ch in_scan_flow_scalar_non_spaces_1) then
+    do s2 <- forward s1 1; Ok (Some (s2, [[ch]]))
+  else if double && (ch =? c_bslash) then
+    do r <- scan_escape s1; Ok (Some r)
+  else Ok None.
+
 Fixpoint flow_non_spaces_f (fuel : nat) (s : stream) (double : bool) (chunks : list str)
   : res (stream * list str) :=
   match fuel with
@@ -320,18 +335,11 @@ Fixpoint flow_non_spaces_f (fuel : nat) (s : stream) (double : bool) (chunks : l
                                (s_rest s);
       let chunks1 := match length with O => chunks | _ => chunks ++ [prefix s length] end in
       do s1 <- forward s length;
-      do ch <- peek s1 0;
-      do q2 <- (if negb double && (ch =? c_squote)
-                then do n <- peek s1 1; Ok (n =? c_squote) else Ok false);
-      if q2 then
-        do s2 <- forward s1 2; flow_non_spaces_f f s2 double (chunks1 ++ [[c_squote]])
-      else if (double && (ch =? c_squote))
-              || (negb double && mem_N ch in_scan_flow_scalar_non_spaces_1) then
-        do s2 <- forward s1 1; flow_non_spaces_f f s2 double (chunks1 ++ [[ch]])
-      else if double && (ch =? c_bslash) then
-        do r <- scan_escape s1;
-        let '(s2, cs) := r in flow_non_spaces_f f s2 double (chunks1 ++ cs)
-      else Ok (s1, chunks1)
+      do b <- flow_ns_branch s1 double;
+      match b with
+      | Some (s2, cs) => flow_non_spaces_f f s2 double (chunks1 ++ cs)
+      | None => Ok (s1, chunks1)
+      end
   end.
 
 Definition scan_flow_scalar_non_spaces (s : stream) (double : bool)
